@@ -88,9 +88,15 @@ Unmark == /\ Is("unmark") /\ Adv
           /\ ckpt' = [k \in {x \in DOMAIN ckpt : x < Ev.from} |-> ckpt[k]]
           /\ UNCHANGED <<fam, vis, dur, kvis, kdur, sub, created, ncrash, flt, clr, pend, trunc, bad, cnt, viol, nobs>>
 
-(* everything between a violation and the next restore/reset is skipped *)
+(* everything between a violation and the next restore/reset is skipped - except what needs no model of the log to be   *)
+(* judged (C03, usability after recovery): in the crash family, with no fault injected, an append at the index the WAL *)
+(* ITSELF reports as LastIndex+1 (a "relative" step of the driver) must be accepted, and Open must succeed             *)
 Skip == /\ l <= Len(Trace) /\ bad /\ Ev.ev \notin {"reset", "mark", "restore", "unmark"} /\ Adv
-        /\ UNCHANGED <<fam, vis, dur, kvis, kdur, sub, created, ncrash, flt, clr, pend, trunc, bad, ckpt, cnt, viol, nobs>>
+        /\ IF fam = "crash" /\ Ev.ev = "store" /\ "rel" \in DOMAIN Ev /\ Ev.rel /\ Ev.res # "ok" /\ ~Ev.fault /\ ~Ev.mayrej
+           THEN V("StoreRejectedLegal")
+           ELSE IF fam = "crash" /\ Ev.ev = "open" /\ Ev.res # "ok" /\ ~Ev.fault THEN V("OpenFailed")
+           ELSE UNCHANGED viol
+        /\ UNCHANGED <<fam, vis, dur, kvis, kdur, sub, created, ncrash, flt, clr, pend, trunc, bad, ckpt, cnt, nobs>>
 
 Live(k) == Is(k) /\ ~bad /\ Adv
 
